@@ -134,8 +134,10 @@ def predicate(req, d):
     return True, "ok"
 
 
-def req_line(r):
-    s = "run %s %d %s %s %d %s %d %d" % (bits(r["x0"]), r["im"], bits(r["xmin0"]), bits(r["xmax0"]), r["ck"],
+def req_line(r, harness=False):
+    """request line; for the harness, a request flagged `overload` names the 4-argument overload
+    scalarNewtonRaphson(f, c, x0, im) (`run4`), which the model sees as the same request without bracket"""
+    s = "%s %s %d %s %s %d %s %d %d" % ("run4" if (harness and r.get("overload")) else "run", bits(r["x0"]), r["im"], bits(r["xmin0"]), bits(r["xmax0"]), r["ck"],
                                          bits(r["cp"]), r["fid"], len(r["script"]))
     for (f, df) in r["script"]:
         s += " %s %s" % (bits(f), bits(df))
@@ -253,9 +255,15 @@ def run(ck):
     reqs += exhaustive(2 if ck.quick else 3)
     n_rand = 20000 if ck.quick else 400000
     reqs += [gen_random(rng) for _ in range(n_rand)]
+    # the overload (f, c, x0, im): every bracket-less request of the corpus / exhaustive part and one random request
+    # in four, replayed through it (generated after the base requests: the base corpus of a seed is unchanged)
+    nb = len(reqs) - n_rand
+    over = [dict(r, overload=True, **{"class": "overload:" + r["class"]}) for k, r in enumerate(reqs)
+            if r["xmin0"] != r["xmin0"] and r["xmax0"] != r["xmax0"] and (k < nb or k % 4 == 0)]
+    reqs += over
     lines = [req_line(r) for r in reqs]
     text = "\n".join(lines) + "\n"
-    pi = ck.run([harness], input=text, timeout=3000)
+    pi = ck.run([harness], input="\n".join(req_line(r, True) for r in reqs) + "\n", timeout=3000)
     pm = ck.run([driver], input=text, timeout=3000)
     impl = pi.stdout.splitlines()
     model = pm.stdout.splitlines()
@@ -318,10 +326,10 @@ def run(ck):
                     break
         kind = why.split(")")[0].strip("(") if why.startswith("(") else "format"
         found = not ok
-        key = "%s:%s" % (SITE, kind if found else "trace")
+        key = "%s%s:%s" % (SITE, "(f,c,x0,im)" if r.get("overload") else "", kind if found else "trace")
         full = key if found else "corr:" + key
         size = (len(r["script"]), r["im"], len(lines[k]))
-        rep = {"request": lines[k], "decoded_request": {a: (repr(b) if isinstance(b, float) else b) for a, b in r.items() if a != "script"},
+        rep = {"request": req_line(r, True), "decoded_request": {a: (repr(b) if isinstance(b, float) else b) for a, b in r.items() if a != "script"},
                "script": [[repr(a), repr(b)] for a, b in r["script"]],
                "implementation": impl[k], "model": model[k],
                "implementation_calls": [repr(dbl(a)) for a in (d["args"] if d else [])],
@@ -352,7 +360,7 @@ def run(ck):
             samples.append({"request": lines[k][:300], "class": reqs[k]["class"], "implementation": impl[k].split(" | ")[0][:300]})
     return ck.finish({
         "evaluations": len(lines), "distinct_nontrivial": len(distinct),
-        "rule": "requests = corpus/C09 + every script of length <= %d over f in {-1,0,1,inf,NaN} x df in {0,1,-2,NaN} for 4 configurations (guess, bounds, budget, criterion) + seeded random requests from 6 classes (12 genuine functions with/without bracket, arbitrary scripts, valid bracket followed by arbitrary answers, function/script hybrids, extreme magnitudes); distinct = distinct request lines; non-trivial = the user function is called more than once" % (2 if ck.quick else 3),
+        "rule": "requests = corpus/C09 + every script of length <= %d over f in {-1,0,1,inf,NaN} x df in {0,1,-2,NaN} for 4 configurations (guess, bounds, budget, criterion) + the bracket-less ones replayed through the overload (f, c, x0, im) + seeded random requests from 6 classes (12 genuine functions with/without bracket, arbitrary scripts, valid bracket followed by arbitrary answers, function/script hybrids, extreme magnitudes); distinct = distinct request lines; non-trivial = the user function is called more than once" % (2 if ck.quick else 3),
         "exhaustive": True, "exhaustive_scope": "scripts up to the stated length over the stated alphabet; the random classes are sampled",
         "disagreements": disagreements,
         "class_histogram": dict(hist_class), "outcome_histogram": dict(hist_outcome),
